@@ -215,11 +215,19 @@ struct ConsumerTask {
     slow_then_remove: bool,
     drop_at_end: bool,
     allow_p5_shape: bool,
+    /// handle-churn: clones are handed to a helper thread that uses and drops them concurrently
+    handoff: Option<std::sync::mpsc::Sender<RxH>>,
+}
+
+struct HelperTask {
+    inbox: std::sync::mpsc::Receiver<RxH>,
+    kinds: Vec<RecvKind>,
 }
 
 enum Task {
     Producer(ProducerTask),
     Consumer(ConsumerTask),
+    Helper(HelperTask),
 }
 
 struct TaskResult {
@@ -416,7 +424,7 @@ fn run_consumer(mut t: ConsumerTask, sh: &Shared, rng: &mut Rng) -> TaskResult {
                     }
                 }
                 if t.churn_every != 0 && received % t.churn_every == 0 {
-                    rx_churn(&mut active, i, rng, t.kinds.as_slice());
+                    rx_churn(&mut active, i, rng, t.kinds.as_slice(), &t.handoff);
                 }
                 if stop_before {
                     // quiesce: stop right away, leaving values outstanding
@@ -486,7 +494,45 @@ fn run_consumer(mut t: ConsumerTask, sh: &Shared, rng: &mut Rng) -> TaskResult {
 }
 
 /// clone/drop/into_single/into_multi on a consumer's own handle while siblings run
-fn rx_churn(active: &mut Vec<RxH>, i: usize, rng: &mut Rng, kinds: &[RecvKind]) {
+fn run_helper(h: HelperTask, _sh: &Shared, rng: &mut Rng) -> TaskResult {
+    // uses every clone it is handed for a moment, then drops it: the stream's consumer count goes
+    // n -> n+1 -> n while the owner of the original handle keeps receiving concurrently
+    loop {
+        match h.inbox.recv_timeout(Duration::from_millis(20)) {
+            Ok(mut c) => {
+                let n = 1 + rng.below(3);
+                for _ in 0..n {
+                    let k = pick_kind(&c, &h.kinds, rng, false);
+                    c.recv_kind(k);
+                }
+                if rng.chance(1, 2) {
+                    c.unsubscribe();
+                } else {
+                    c.drop_rx();
+                }
+            }
+            Err(std::sync::mpsc::RecvTimeoutError::Timeout) => continue,
+            // every sender (the consumers holding a clone of it) is gone: the run is over
+            Err(std::sync::mpsc::RecvTimeoutError::Disconnected) => break,
+        }
+    }
+    TaskResult {
+        txs: Vec::new(),
+        rxs: Vec::new(),
+        log: Vec::new(),
+        gave_up: false,
+    }
+}
+
+fn rx_churn(active: &mut Vec<RxH>, i: usize, rng: &mut Rng, kinds: &[RecvKind], handoff: &Option<std::sync::mpsc::Sender<RxH>>) {
+    if let Some(tx) = handoff {
+        if rng.chance(2, 3) {
+            if let Some(c) = active[i].clone_rx() {
+                let _ = tx.send(c);
+            }
+            return;
+        }
+    }
     match rng.below(3) {
         0 | 1 => {
             if let Some(mut c) = active[i].clone_rx() {
@@ -876,6 +922,18 @@ pub fn run_once(cfg: &ConcCfg, shard: &mut Shard, keep_sample: bool) -> RunOutco
 
     // ---- tasks
     let mut tasks: Vec<(u32, Task)> = Vec::new();
+    let mut handoff_tx: Option<std::sync::mpsc::Sender<RxH>> = None;
+    if cfg.family == Family::HandleChurn {
+        let (htx, hrx) = std::sync::mpsc::channel::<RxH>();
+        handoff_tx = Some(htx);
+        tasks.push((
+            ROLE_CONSUMER,
+            Task::Helper(HelperTask {
+                inbox: hrx,
+                kinds: vec![RecvKind::TryRecv, RecvKind::TryIter, RecvKind::Poll],
+            }),
+        ));
+    }
     for (pi, tx) in txs.drain(..).enumerate() {
         tasks.push((
             ROLE_PRODUCER,
@@ -908,6 +966,7 @@ pub fn run_once(cfg: &ConcCfg, shard: &mut Shard, keep_sample: bool) -> RunOutco
                     slow_then_remove: true,
                     drop_at_end: false,
                     allow_p5_shape: false,
+                    handoff: None,
                 }),
             ));
             continue;
@@ -916,10 +975,21 @@ pub fn run_once(cfg: &ConcCfg, shard: &mut Shard, keep_sample: bool) -> RunOutco
         for (ci, h) in hs.into_iter().enumerate() {
             let cc = &sc.consumers[ci];
             let mut add_after = None;
-            if si == 0 && ci == 0 {
+            if ci == 0 {
                 match cfg.family {
                     Family::AddStreamSole | Family::AddStreamShared => {
-                        add_after = Some(1 + rng.below((cfg.msgs as u64).max(2)) as u32);
+                        // the first stream's first consumer always adds a stream; the first consumer of
+                        // a second sole-handle stream often does too (two add_stream calls racing)
+                        if si == 0 || (si == 1 && nh == 1 && !cc.uni && rng.chance(1, 2)) {
+                            add_after = Some(1 + rng.below((cfg.msgs as u64).max(2)) as u32);
+                        }
+                    }
+                    Family::RemoveStream => {
+                        // add_stream racing with the removal of another stream
+                        if si == 0 && nh == 1 && !cc.uni && rng.chance(1, 2) {
+                            // early: the stream still gets values before the producers are stuck
+                            add_after = Some(1 + rng.below(2) as u32);
+                        }
                     }
                     _ => {}
                 }
@@ -946,11 +1016,13 @@ pub fn run_once(cfg: &ConcCfg, shard: &mut Shard, keep_sample: bool) -> RunOutco
                     slow_then_remove: false,
                     drop_at_end: cfg.family == Family::Teardown,
                     allow_p5_shape: cfg.family == Family::AddStreamShared,
+                    handoff: if cfg.family == Family::HandleChurn && si == 0 { handoff_tx.clone() } else { None },
                 }),
             ));
         }
     }
 
+    drop(handoff_tx);
     // ---- concurrent phase
     hooks::track_pairs(cfg.policy != Policy::None);
     let nthreads = tasks.len() as u32;
@@ -972,6 +1044,7 @@ pub fn run_once(cfg: &ConcCfg, shard: &mut Shard, keep_sample: bool) -> RunOutco
                 let mut r = match task {
                     Task::Producer(p) => run_producer(p, &sh, &mut trng),
                     Task::Consumer(c) => run_consumer(c, &sh, &mut trng),
+                    Task::Helper(h) => run_helper(h, &sh, &mut trng),
                 };
                 r.log = hist::take();
                 hooks::thread_end();
@@ -1111,15 +1184,31 @@ pub fn run_once(cfg: &ConcCfg, shard: &mut Shard, keep_sample: bool) -> RunOutco
         probe_drained: drained,
         also: cfg.family.also(),
     };
+    let prof = std::env::var("MQV_PROFILE").is_ok();
+    let mut tp = Instant::now();
+    let mut lap = |name: &str| {
+        if prof {
+            eprintln!("  checker {:<12} {:?}", name, tp.elapsed());
+        }
+        tp = Instant::now();
+    };
     let mut ix = checkers::build_index(&c);
+    lap("index");
     let facts = checkers::check_c10(&c, &mut ix);
+    lap("c10");
     checkers::check_c01(&c, &ix);
+    lap("c01");
     checkers::check_c02(&c, &ix);
+    lap("c02");
     checkers::check_c03(&c, &ix);
+    lap("c03");
     checkers::check_c07(&c, &ix);
+    lap("c07");
     checkers::check_c11_bool(&c, &ix);
     checkers::check_c11_group(&c, &ix);
+    lap("c11");
     checkers::check_c13(&c, &ix);
+    lap("c13");
     if gave_up {
         // a producer was refused max_retries times in a row while consumers were running
         violation(
@@ -1380,6 +1469,9 @@ pub struct GenOpts {
     pub fl: Option<Flavour>,
     pub fut: Option<bool>,
     pub small: bool,
+    /// long free-running executions (tens of thousands of messages): windows without a hook site are
+    /// only reachable through natural pre-emption, which needs time on an oversubscribed machine
+    pub long: bool,
     pub policy: Option<Policy>,
 }
 
@@ -1437,7 +1529,7 @@ pub fn gen_cfg(rng: &mut Rng, family: Family, o: &GenOpts) -> ConcCfg {
             k = 2 + rng.below(2) as usize;
         }
         if family == Family::HandleChurn && si == 0 {
-            k = 2;
+            k = 1 + rng.below(2) as usize;
         }
         let mut consumers = Vec::new();
         for _ in 0..k {
@@ -1480,7 +1572,9 @@ pub fn gen_cfg(rng: &mut Rng, family: Family, o: &GenOpts) -> ConcCfg {
             _ => 200 + rng.below(600) as u32,
         }
     };
-    let policy = o.policy.unwrap_or_else(|| match rng.below(8) {
+    let msgs = if o.long && !miri { 20_000 + rng.below(40_000) as u32 } else { msgs };
+    let policy = if o.long { Some(Policy::None) } else { o.policy };
+    let policy = policy.unwrap_or_else(|| match rng.below(8) {
         0 => Policy::None,
         1 | 2 => Policy::Yield,
         3 => Policy::Jitter,
@@ -1511,6 +1605,32 @@ pub fn gen_cfg(rng: &mut Rng, family: Family, o: &GenOpts) -> ConcCfg {
             Family::RemoveStream => Some((site::RR_BEFORE_CAS, (1 << ROLE_AUX) | (1 << ROLE_CONSUMER), site::RR_RETIRED)),
             _ => None,
         };
+        // a list update that is made to lose its compare-exchange against another list update
+        if matches!(family, Family::AddStreamSole | Family::AddStreamShared | Family::RemoveStream) && rng.chance(1, 2) {
+            let other = if family == Family::RemoveStream { site::RR_PUBLISHED } else { site::AS_PUBLISHED };
+            plan.push(Stall {
+                site: site::AS_BEFORE_CAS,
+                roles: 1 << ROLE_AUX,
+                nth: 1,
+                events: rng.below(4) as u32,
+                until: Some(other),
+                gate: None,
+                cap_us: 3000,
+                max_pauses: 3,
+            });
+            if family == Family::RemoveStream {
+                plan.push(Stall {
+                    site: site::RR_BEFORE_CAS,
+                    roles: (1 << ROLE_AUX) | (1 << ROLE_CONSUMER),
+                    nth: 1,
+                    events: rng.below(4) as u32,
+                    until: Some(site::AS_PUBLISHED),
+                    gate: None,
+                    cap_us: 3000,
+                    max_pauses: 2,
+                });
+            }
+        }
         if let Some((wait_site, wait_roles, done_site)) = duo {
             if rng.chance(2, 3) {
                 let scan_site = *rng.pick(&[site::GMD_BETWEEN_READERS, site::GMD_BETWEEN_READERS, site::GMD_LOADED_PTR, site::GMD_BEFORE_RECHECK]);
